@@ -243,7 +243,7 @@ def make_with_sample(name, rng, **kw):
         r = _mk_microlzma_decoder(c, comp_size=len(comp), uncomp_size=len(d), exact=1, dict_size=1 << 20)
         return c, comp, r
     if name == "file_info_decoder":
-        data = _xz_multi_sample(rng)
+        data = kw.pop("data", None) or _xz_multi_sample(rng)
         r = _mk_file_info_decoder(c, file_size=len(data), **kw)
         return c, data, r
     s = REG[name]
